@@ -49,7 +49,8 @@ theorem C12_next_repeats (s : State) (hrt : s.rt = some .running) :
     rtCallBlocking s "next" .ready = reply s "rt" "next" (renderRuntime s) := by
   simp only [rtCallBlocking, hrt, rtProg, runRtInstrs]
   rw [set_rt_eq s _ hrt]
-  simp
+  have : renderFor s "next" = renderRuntime s := by simp [renderFor]
+  simp [this]
 
 /-- **next blocks** from Started / Ready / ResponseSent / Restoring: the handler parks (it is listed
     as pending, nothing is answered) as long as the flow arrivals it makes are accepted. -/
